@@ -17,6 +17,8 @@
 //   S <id> <acts>     script of task / callback <id>
 //   H <h1> <h2> ...   kind=pool: hash codes (after the `calls` getNextLoop calls)
 //   O <ops>           kind=pool: a mixed call sequence instead: n = getNextLoop(), h<code> = getLoopForHash(code)
+//   header big=<K> tail=<m>  kind=pool: after everything else K further getNextLoop() calls (not recorded),
+//                     then m recorded ones: "tail <total calls before the first recorded one> r1 r2 ..."
 //   end
 // acts (separated by ';'):  q <t> | r <t> | quit | ev <k> | pt | start | destroy | -
 // Output: "case <id>", scheduler lines (t/c/e/d, DEADLOCK, STEPLIMIT, schedule), "STUCK ..." when the
@@ -59,7 +61,8 @@ typedef std::vector<Act> Prog;
 struct CaseDesc
 {
   string id, kind, poller;
-  int pts, n, calls;
+  int pts, n, calls, tail;
+  unsigned long long big;
   sched::Config cfg;
   Prog prefix;
   std::vector<Prog> later;
@@ -100,6 +103,14 @@ void __cyg_profile_func_enter(void* fn, void*)
   int a = fn == F_quit ? A_QUIT : fn == F_queue ? A_QUEUE : fn == F_run ? A_RUN : fn == F_loop ? A_LOOP : A_NONE;
   if (a != A_NONE)
   {
+    if (g_loop_dead && g_case && g_case->kind == "elt" && a != A_LOOP && sched::self() >= 0 && !t_inhook)
+    {
+      // the object was destroyed BEFORE the call (not between two halves of it): a stale pointer
+      t_inhook = 1;
+      sched::log("UAF %s called on a destroyed EventLoop", a == A_QUIT ? "quit()" : a == A_QUEUE ? "queueInLoop()" : "runInLoop()");
+      fflush(stdout);
+      t_inhook = 0;
+    }
     if (t_depth < 16) t_api[t_depth] = a;
     ++t_depth;
     if (a == A_LOOP && g_pts && sched::self() >= 0) { t_inhook = 1; sched::point("loop_entry"); t_inhook = 0; }
@@ -112,7 +123,7 @@ void __cyg_profile_func_enter(void* fn, void*)
     {
       t_inhook = 1;
       sched::point(top == A_QUIT ? "quit_mid" : "queue_mid");
-      if (g_loop_dead)
+      if (g_loop_dead && g_case->kind == "elt")
       {
         // the object whose member is about to be read has been destroyed (F-4); ASan reports the
         // read itself as stack-use-after-scope right after this line
@@ -364,6 +375,19 @@ static void runPoolCase(const CaseDesc& c)
         }
         printf("%s\n", s.c_str());
       }
+      if (c.big > 0)
+      {
+        unsigned long long before = static_cast<unsigned long long>(c.calls);
+        for (size_t k = 0; k < c.pops.size(); ++k) if (c.pops[k] == "n") ++before;
+        for (unsigned long long k = 0; k < c.big; ++k) pool.getNextLoop();
+        printf("tail %llu", before + c.big);
+        for (int k = 0; k < c.tail; ++k)
+        {
+          EventLoop* l = pool.getNextLoop();
+          printf(" %d", idx.count(l) ? idx[l] : -2);
+        }
+        printf("\n");
+      }
       // every loop accepts a task and runs it on its own thread
       if (c.n > 0)
         for (size_t i = 0; i < all.size(); ++i) all[i]->runInLoop(std::bind(poolTask, static_cast<int>(i)));
@@ -424,6 +448,8 @@ int main()
       c.pts = 1;
       c.n = 0;
       c.calls = 0;
+      c.tail = 0;
+      c.big = 0;
       c.cfg.max_steps = 4000;
       for (size_t i = 2; i < w.size(); ++i)
       {
@@ -436,6 +462,8 @@ int main()
         else if (k == "pts") c.pts = atoi(v.c_str());
         else if (k == "n") c.n = atoi(v.c_str());
         else if (k == "calls") c.calls = atoi(v.c_str());
+        else if (k == "tail") c.tail = atoi(v.c_str());
+        else if (k == "big") c.big = strtoull(v.c_str(), NULL, 10);
       }
       in = true;
       continue;
